@@ -231,6 +231,11 @@ check:
 		return []error{fmt.Errorf("%s: no YangType defined for %s %s", Source(td), source, td.Name)}
 	}
 	y := *td.YangType
+	// The slices that are appended to below get their own backing arrays,
+	// so that the additions do not show up in other types based on td.
+	y.Pattern = append([]string(nil), y.Pattern...)
+	y.POSIXPattern = append([]string(nil), y.POSIXPattern...)
+	y.Type = append([]*YangType(nil), y.Type...)
 
 	y.Base = td.Type
 	t.YangType = &y
